@@ -6,7 +6,9 @@ before the dump and of the arrays returned by load, plus the solver data
 before/after.  Version-1 npz files are written with numpy only from the
 projection (layout read from NumpyOutput._load) and loaded the same way.
 
-usage: c11_driver.py CASES.ndjson OUT.ndjson [START [COMBO]]
+usage: c11_driver.py --runs RUNS.ndjson OUT.ndjson   (file-name handling: runs
+       of several dumps into one directory, see run_run)
+       c11_driver.py CASES.ndjson OUT.ndjson [START [COMBO]]
   CASES: one array-list description per line (see checks/C11.py gen_*)
   START, COMBO: index of the first description to run and of its first
          option combination (used to resume after a crash)
@@ -200,7 +202,119 @@ def source_hashes():
     return out
 
 
+# ---- runs: the file-name handling of dump / load / get_files ---------------
+def listing(root, skip):
+    out = []
+    for d, dn, fn in os.walk(root):
+        for f in fn:
+            rel = os.path.relpath(os.path.join(d, f), root)
+            if rel not in skip:
+                out.append(rel)
+    return sorted(out)
+
+
+def magic(path):
+    with open(path, 'rb') as fp:
+        b = fp.read(8)
+    if b[:2] == b'PK':
+        return 'npz'
+    if b[:4] == b'\x89HDF':
+        return 'hdf5'
+    return 'other'
+
+
+def rel(path, root):
+    path = os.path.abspath(path)
+    root = os.path.abspath(root)
+    return path[len(root) + 1:] if path.startswith(root + os.sep) else path
+
+
+def run_run(case, out, root):
+    """One run: several dumps into one directory under `root`, then load of
+    every file present, get_files, load_and_concatenate.  Every recorded
+    string is a list of characters; paths are relative to root."""
+    import shutil
+    from pysph import has_h5py
+    from pysph.solver.utils import get_files, load_and_concatenate
+    ch = list
+    rec = dict(id=case['id'], h5=bool(has_h5py()), solver=case['solver'],
+               dir=ch(case['dir']), base=ch(case['base']), ext=ch(case['ext']),
+               counts=case['counts'], names=[ch(n) for n in case['names']],
+               listings=[], loaded=[], found=[], auto=bool(case['auto']),
+               found_auto=[], concat=[], error='')
+    os.makedirs(root)
+    skip = set()
+    stage = 'setup'
+    try:
+        d = os.path.join(root, case['dir']) if case['dir'] else root
+        os.makedirs(d, exist_ok=True)
+        if case.get('info'):
+            inf = os.path.join(d, case['base'] + '.info')
+            open(inf, 'w').write('{}')
+            skip.add(rel(inf, root))
+        for name, count in zip(case['names'], case['counts']):
+            stage = 'setup'
+            full = os.path.join(root, name)
+            os.makedirs(os.path.dirname(full), exist_ok=True)
+            pa = ParticleArray(name='f', x=dict(data=np.array(
+                [float(count % 1024), 1.0])))
+            stage = 'dump(%s)' % name
+            dump(full, [pa], dict(t=0.0, dt=1.0, count=int(count)),
+                 detailed_output=False, only_real=True, mpi_comm=None,
+                 compress=bool(case.get('compress')))
+            rec['listings'].append([ch(f) for f in listing(root, skip)])
+        stage = 'load'
+        for f in listing(root, skip):
+            ent = dict(path=ch(f), ok=False, count=-1,
+                       magic=magic(os.path.join(root, f)))
+            try:
+                data = load(os.path.join(root, f))
+                ent['count'] = norm(data['solver_data']['count'])
+                ent['ok'] = True
+            except Exception:
+                pass
+            rec['loaded'].append(ent)
+        if case['solver']:
+            stage = 'get_files'
+            rec['found'] = [ch(rel(f, root))
+                            for f in get_files(d, case['base'])]
+            if case['auto']:
+                rec['found_auto'] = [ch(rel(f, root)) for f in get_files(d)]
+        for c in case.get('concat_counts', []):
+            ent = dict(count=c, ok=False, got=-1)
+            try:
+                data = load_and_concatenate(
+                    case['concat_prefix'], nprocs=1, directory=d,
+                    count=None if c < 0 else c)
+                ent['got'] = norm(data['solver_data']['count'])
+                ent['ok'] = True
+            except Exception:
+                pass
+            rec['concat'].append(ent)
+    except Exception as ex:
+        rec['error'] = '%s: %s: %s' % (stage, type(ex).__name__, ex)
+        if stage == 'setup':
+            rec['error'] = 'HARNESS ' + rec['error']
+    finally:
+        shutil.rmtree(root, ignore_errors=True)
+    out.write(json.dumps(rec) + '\n')
+    out.flush()
+
+
+def main_runs(cases_f, out_f):
+    h0 = source_hashes()
+    scratch = os.path.dirname(os.path.abspath(out_f))
+    with open(out_f, 'w') as out:
+        for k, line in enumerate(open(cases_f)):
+            run_run(json.loads(line), out,
+                    os.path.join(scratch, 'run_%d_%d' % (os.getpid(), k)))
+    with open(out_f + '.src', 'a') as fp:
+        fp.write(json.dumps(dict(start=h0, end=source_hashes())) + '\n')
+
+
 def main():
+    if sys.argv[1] == '--runs':
+        return main_runs(sys.argv[2], sys.argv[3])
     cases_f, out_f = sys.argv[1], sys.argv[2]
     h0 = source_hashes()
     start = int(sys.argv[3]) if len(sys.argv) > 3 else 0
